@@ -7,3 +7,5 @@ cp -r /repo/src $D/src
 cd ${VERIF_DIR:-/verif}
 for c in "$@"; do FINAM_SRC=$D/src ./check $c ${TIER:-quick} 2>&1 | grep -v KNOWN-FINDING | grep -E "VIOLATION|^C[0-9]+ (quick|thorough)|MACHINERY|Error" | head -3; done
 rm -rf $D
+# put the regenerated Lean sources back to what /repo says (the checks above regenerated them from the changed copy)
+(cd ${VERIF_DIR:-/verif} && /venv/bin/python -W ignore -c "from harness import common; common.regenerate()")
